@@ -108,6 +108,26 @@ func traceSchedule(c *an.Ctx, s *sched, row schedRow) []schedPath {
 						arg = "stage"
 					}
 				}
+				// … or carried in the stage field of an object built for this launch
+				if s.carrier != nil {
+					for _, a := range x.Call.Args {
+						al, ok := an.Resolve(a).(*ssa.Alloc)
+						if !ok || al.Referrers() == nil {
+							continue
+						}
+						for _, r := range *al.Referrers() {
+							fa, ok := r.(*ssa.FieldAddr)
+							if !ok || fa.Field != s.carrierField || fa.Referrers() == nil {
+								continue
+							}
+							for _, rr := range *fa.Referrers() {
+								if sto, ok := rr.(*ssa.Store); ok && sto.Addr == ssa.Value(fa) && isStage(sto.Val, st) {
+									arg = "stage"
+								}
+							}
+						}
+					}
+				}
 				// … or captured: a variable of this launch (a helper's parameter, a per-iteration local) that holds the stage
 				for _, src := range an.Sources(x.Call.Value) {
 					mc, ok := src.(*ssa.MakeClosure)
